@@ -82,9 +82,7 @@ theorem toGrid_colMean (N K : ℕ) (c Φ : ℕ → ℕ → ℚ) (j : ℕ) :
   unfold colMean toGrid
   rw [Finset.sum_comm, Finset.sum_div]
   apply Finset.sum_congr rfl; intro k _
-  rw [Finset.sum_mul, Finset.sum_div, Finset.sum_div]
-  rw [Finset.sum_mul]
-  apply Finset.sum_congr rfl; intro i _; ring
+  rw [div_mul_eq_mul_div, Finset.sum_mul]
 
 theorem toGrid_center (N K : ℕ) (c Φ : ℕ → ℕ → ℚ) (i j : ℕ) :
     toGrid K (center N c) Φ i j = center N (toGrid K c Φ) i j := by
@@ -150,7 +148,8 @@ theorem covBasisGrid_eq (N K m : ℕ) (c Φ : ℕ → ℕ → ℚ) (j j' : ℕ) 
       Finset.sum_congr rfl (fun y _ => Finset.sum_comm)]
   rw [Finset.sum_comm]
   apply Finset.sum_congr rfl; intro i _
-  rw [Finset.sum_mul_sum, Finset.sum_comm]
+  simp_rw [Finset.mul_sum]
+  rw [Finset.sum_comm]
   apply Finset.sum_congr rfl; intro x _
   apply Finset.sum_congr rfl; intro y _
   ring
